@@ -403,7 +403,7 @@ func (u *upstream) serveHTTP1(c net.Conn, id int64) {
 			if _, err := c.Write(append([]byte(hdr), rb...)); err != nil {
 				return
 			}
-			if a.goaway {
+			if a.goaway && !a.gaKeep {
 				c.Close()
 			}
 		}()
